@@ -97,9 +97,10 @@ func (s *Server) processRequest(ctx context.Context, req *gnmi.GetRequest, group
 			return s.reportAllTargets(ctx, req.Encoding, groups)
 		}
 
-		targetID := configapi.TargetID(path.Target)
-		if targetID == "" && prefix != nil {
-			targetID = configapi.TargetID(prefix.Target)
+		// The target of the prefix takes precedence over the target of a path, as it does for Set and Subscribe
+		targetID := configapi.TargetID(prefix.GetTarget())
+		if targetID == "" {
+			targetID = configapi.TargetID(path.Target)
 		}
 		if targetID == "" {
 			return nil, errors.NewInvalid("has no target")
@@ -270,9 +271,10 @@ func (s *Server) processStateOrOperationalRequest(ctx context.Context, req *gnmi
 	paths := make(map[configapi.TargetID][]*gnmi.Path)
 	notifications := make([]*gnmi.Notification, 0)
 	for _, path := range req.GetPath() {
-		targetID := configapi.TargetID(path.Target)
-		if targetID == "" && prefix != nil {
-			targetID = configapi.TargetID(prefix.Target)
+		// The target of the prefix takes precedence over the target of a path, as it does for Set and Subscribe
+		targetID := configapi.TargetID(prefix.GetTarget())
+		if targetID == "" {
+			targetID = configapi.TargetID(path.Target)
 		}
 		if targetID == "" {
 			return nil, errors.NewInvalid("has no target")
